@@ -5,7 +5,7 @@ from __future__ import annotations
 import ast
 import re
 
-from hsa.core import AnalysisError, Repo, Report, body_walk, call_name, dotted, kwarg, last_attr, src
+from hsa.core import AnalysisError, Repo, Report, body_walk, call_name, dotted, find_assign, kwarg, last_attr, src
 from hsa.flow import Flow, _loop_level, function_exits, guard_text, guards_at, normal_exit_states, split_cond
 from hsa.fold import UNKNOWN, fold_in
 from hsa.origin import origin_text
@@ -562,3 +562,46 @@ def r02_9_shared(repo: Repo, rep: Report):
 
 
 RULES.append(r02_9_shared)
+
+
+def r02_10_alias_recording(repo: Repo, rep: Report):
+    rep.rule("R02.10", "address-alias resolution: every alternative (address, condition) constrains its own branch with that condition and records that address")
+    m, fn = repo.fn("sevm.SEVM.resolve_address_alias")
+    # alternatives are (address, condition) pairs: the condition of an address candidate is `target == addr`
+    apps = [c for c in body_walk(fn) if isinstance(c, ast.Call) and src(c.func) == "potential_aliases.append" and len(c.args) == 1 and isinstance(c.args[0], ast.Tuple) and len(c.args[0].elts) == 2]
+    texts = sorted(src(c.args[0]) for c in apps)
+    ok = texts == ["(None, emptyness_cond)", "(addr, alias_cond)"] and [src(v) for v in find_assign(fn, "alias_cond")] in (["target == addr"], ["addr == target"])
+    rep.check("R02.10", ok, m, apps[0] if apps else fn, f"alternatives appended: {texts}; alias_cond = {[src(v) for v in find_assign(fn, 'alias_cond')]}", "an alternative must pair a candidate address with the condition that the target equals it (and None with `equals none of them`)")
+    stores = [n for n in body_walk(fn) if isinstance(n, ast.Subscript) and isinstance(n.ctx, ast.Store) and isinstance(n.value, ast.Attribute) and n.value.attr == "alias"]
+    if len(stores) < 2:
+        raise AnalysisError("resolve_address_alias: alias stores not found")
+    # names bound by unpacking a pair: name -> (the unpacking, position)
+    unpack = {}
+    for n in body_walk(fn):
+        tgt = n.targets[0] if isinstance(n, ast.Assign) and len(n.targets) == 1 else (n.target if isinstance(n, ast.For) else None)
+        if isinstance(tgt, ast.Tuple) and len(tgt.elts) == 2 and all(isinstance(e, ast.Name) for e in tgt.elts):
+            for i, e in enumerate(tgt.elts):
+                unpack.setdefault(e.id, []).append((id(tgt), i, n))
+    for n in stores:
+        st = m.parents[n]
+        recv = src(n.value.value)
+        blk = m.parents[st]
+        sibs = list(getattr(blk, "body", []))
+        ok = isinstance(st, ast.Assign) and isinstance(st.value, ast.Name) and src(n.slice) == "target" and st in sibs
+        conds = []
+        if ok:
+            for x in sibs:
+                if isinstance(x, ast.Assign) and src(x.targets[0]) == recv and isinstance(x.value, ast.Call) and last_attr(x.value) == "create_branch" and len(x.value.args) >= 2 and src(x.value.args[0]) == "ex":
+                    conds.append(x.value.args[1])
+                elif isinstance(x, ast.Expr) and isinstance(x.value, ast.Call) and src(x.value.func) == f"{recv}.path.append" and x.value.args and kwarg(x.value, "branching") is not None and src(kwarg(x.value, "branching")) == "True":
+                    conds.append(x.value.args[0])
+            # the pair in force at this store: the enclosing loop's target, or the last unpacking before the store
+            def pair_of(name):
+                cands = [(t, i, node) for t, i, node in unpack.get(name, []) if (node is blk) or (not isinstance(node, ast.For) and node in sibs and node.lineno < st.lineno)]
+                return cands[-1][:2] if cands else None
+            pv = pair_of(st.value.id)
+            ok = len(conds) == 1 and isinstance(conds[0], ast.Name) and pv is not None and pv[1] == 0 and pair_of(conds[0].id) == (pv[0], 1)
+        rep.check("R02.10", ok, m, st, f"{src(st)}: address and condition of one alternative, condition applied to {recv}", "the branch records another value than the alternative's address, or is constrained by another alternative's condition: the call then runs the wrong account's code (or a feasible alias is never explored)")
+
+
+RULES.append(r02_10_alias_recording)
